@@ -26,3 +26,15 @@ pub fn workers() -> usize {
 macro_rules! outln {
     ($($arg:tt)*) => { $crate::out::line(&format!($($arg)*)) };
 }
+
+/// The harness' own executable, for starting child servers and workers. Through /proc the
+/// running image stays reachable even when the file at its path is replaced by a rebuild while a
+/// long run is in progress (std::env::current_exe would then name a deleted file).
+pub fn own_exe() -> std::path::PathBuf {
+    let p = std::path::PathBuf::from("/proc/self/exe");
+    if p.exists() {
+        p
+    } else {
+        std::env::current_exe().expect("own path")
+    }
+}
